@@ -34,7 +34,7 @@ def define(pid, propfile, insts, drivers, text, rule, assumptions=(), diag=None,
             if src:
                 ck.source_tie(with_tables=bool(need_tables and ok_tables))
             for which in SRCO.get(pid, ()):
-                ck.source_tie_obj(which)
+                ck.source_tie_obj(which, with_tables=bool(need_tables and ok_tables))
             if ok_tables:
                 for inst in insts:
                     ok, where, log = ck.compile_instance(inst)
